@@ -446,6 +446,46 @@ pub fn roundtrip(ctx: &mut Ctx) {
             }
         }
     }
+    // ---------- C08 freshness under concurrency: encrypted streams produced on several threads of
+    // this process (as the CLI's worker pool does) must not share salts or IVs either
+    {
+        let nthreads = 6;
+        let per = if ctx.thorough { 60 } else { 16 };
+        let handles: Vec<_> = (0..nthreads).map(|t| std::thread::spawn(move || -> Vec<(String, Vec<u8>)> {
+            let mut out = vec![];
+            for i in 0..per {
+                let cfg = Cfg { compression: 0, level: None, enc: 1 + ((t + i) % 2) as u8, mode: (i % 2) as u8, kdf: gen::Kdf::Pbkdf2(Some(1)), password: "pw".into() };
+                if i % 4 == 3 {
+                    let mut b = SolidEntryBuilder::new(cfg.options()).unwrap();
+                    let mut e = EntryBuilder::new_file("x".into(), WriteOptions::store()).unwrap();
+                    std::io::Write::write_all(&mut e, b"data").unwrap();
+                    b.add_entry(e.build().unwrap()).unwrap();
+                    let s = b.build().unwrap();
+                    let cs = libpna::verif::entry_into_chunks(s);
+                    let phsf = cs.iter().find(|(t, _)| t == b"PHSF").map(|(_, d)| String::from_utf8_lossy(d).to_string()).unwrap_or_default();
+                    let data: Vec<u8> = cs.iter().filter(|(t, _)| t == b"SDAT").flat_map(|(_, d)| d.clone()).collect();
+                    out.push((phsf, data[..16].to_vec()));
+                } else {
+                    let mut e = EntryBuilder::new_file("x".into(), cfg.options()).unwrap();
+                    std::io::Write::write_all(&mut e, b"data").unwrap();
+                    let e = e.build().unwrap();
+                    out.push((libpna::verif::normal_entry_phsf(&e).unwrap_or_default(), libpna::verif::normal_entry_data(&e).concat()[..16].to_vec()));
+                }
+            }
+            out
+        })).collect();
+        let mut n = 0;
+        for h in handles {
+            if let Ok(v) = h.join() {
+                for (phsf, iv) in v {
+                    n += 1;
+                    if let Some(s) = refdec::parse_phc(&phsf).and_then(|p| p.salt) { salts.push(s); }
+                    ivs.push(iv);
+                }
+            }
+        }
+        ctx.notes.push(format!("freshness under concurrency: {n} encrypted streams built on {nthreads} threads"));
+    }
     // freshness across the whole run
     ctx.oracle_eval();
     let mut s2 = salts.clone(); s2.sort(); s2.dedup();
